@@ -107,7 +107,9 @@ class Real(object):
                 ev.update(rid=rid, reto=r.original_mnemonic, nid=rid if not known else 0)
             else:
                 raise tlc.MachineryError("unknown op %r" % op)
-        except (KeyError, IndexError) as x:
+        except tlc.MachineryError:
+            raise
+        except Exception as x:          # whatever the operation raises is an observation (the clause C_Exc decides)
             ev["exc"] = type(x).__name__
         ev["post"] = self.project()
         return ev
@@ -123,11 +125,15 @@ class Real(object):
                 q["item"] = self.ident(sec[k])
             except KeyError:
                 q["item"] = 0
+            except Exception:          # a string key that is not a mnemonic must raise KeyError, nothing else: an observation
+                q["item"] = -3
             if k.isidentifier() and k not in LIST_ATTRS and not k.startswith("_"):
                 try:
                     q["attr"] = self.ident(getattr(sec, k))
                 except AttributeError:
                     q["attr"] = 0
+                except Exception:
+                    q["attr"] = -3
             else:
                 q["attr"] = -1
             q["las"] = -1
@@ -147,6 +153,8 @@ class Real(object):
                 ints.append({"i": i, "item": self.ident(sec[i])})
             except IndexError:
                 ints.append({"i": i, "item": 0})
+            except Exception:
+                ints.append({"i": i, "item": -3})
         slices = []
         for a, b in ((0, n), (1, n), (0, 1), (-1, n), (0, -1), (1, 2), (2, 1), (-2, -1), (0, n + 2)):
             r = sec[a:b]
@@ -178,6 +186,9 @@ def canon(xf, items):
 
 def probe_keys(real, pool):
     ks = list(pool)
+    for k in ("0", "1", "-1", "+1", " 1", "2"):      # integer-like strings are names, not positions
+        if k not in ks:
+            ks.append(k)
     for it in real.project():
         for k in (it["s"], it["s"].swapcase(), it["o"], it["s"] + "  ", " " + it["s"]):
             if isinstance(k, str) and k not in ks:
